@@ -445,7 +445,17 @@ def _protocol_concrete_replay(self, vals):
     fails = []
     for seed in range(6):
         x = numpy.array([0.5] + [0.3] * (m - 1))
+        try:
+            # the crossover probabilities of the counterexample (every second run), so that a change of the stored
+            # probabilities themselves is observable
+            from fractions import Fraction
+            if seed % 2 == 1 and all(("x_%d" % j) in vals for j in range(m)):
+                x = numpy.array([float(Fraction(str(vals["x_%d" % j]))) for j in range(m)])
+        except Exception:
+            pass
+        x0 = x.copy()
         pg = _mk_pgmat(A.copy(), x, n, m, unsorted=bool(self.params.get("unsorted")))
+        xo_before = numpy.array(pg.vrnt_xoprob, dtype=float).copy()
         names0 = [str(v) for v in pg.vrnt_name]
         p = getattr(mod, prot)(progeny_counter=pc0, family_counter=fc0, rng=numpy.random.RandomState(seed))
         try:
@@ -473,6 +483,10 @@ def _protocol_concrete_replay(self, vals):
                 fails.append("DH progeny %d heterozygous" % k)
         if not numpy.array_equal(pg.mat, A):
             fails.append("parental genotypes modified")
+        if not numpy.array_equal(numpy.array(pg.vrnt_xoprob, dtype=float), xo_before):
+            fails.append("parental crossover probabilities modified: %s -> %s" % (list(xo_before), list(pg.vrnt_xoprob)))
+        if not numpy.array_equal(numpy.array(prog.vrnt_xoprob, dtype=float), xo_before):
+            fails.append("crossover probabilities not carried over: parents %s, progeny %s" % (list(xo_before), list(prog.vrnt_xoprob)))
         if [str(v) for v in prog.vrnt_name] != names0:
             fails.append("marker metadata not carried over in the parental order: %s vs %s" % ([str(v) for v in prog.vrnt_name], names0))
         if fails:
